@@ -1,2 +1,71 @@
-(* C02 — placeholder while proofs are being written *)
-From Verif.C02 Require Import Model.
+(* C02 — compiled code matches definitional semantics; compiler choices are invisible.
+   ONLY theorem statements; each is closed by [exact] of a lemma of C02/Proofs.v. *)
+From Coq Require Import List ZArith NArith Bool.
+Import ListNotations.
+From Verif.C02 Require Import Model Proofs.
+
+(* 1. Every allocation of bindings to frame slots / stash cells that respects goja's rule
+      ("a binding referenced from inside an inner function lives in the stash") is observationally
+      equal to the environment-record semantics: same log, same completion value, same exception
+      (TDZ ReferenceErrors and const TypeErrors included), for EVERY program of the fragment and every
+      fuel, the out-of-fuel outcome included. *)
+Theorem allocation_invisible : forall al n p, valid_alloc al p = true ->
+  run_slots al n p = run_env n p.
+Proof. exact (fun al n p => Proofs.allocation_invisible_pm al PSpec n p). Qed.
+
+(* 1'. the same under each variant of statement-position evaluation *)
+Theorem allocation_invisible_pm : forall al pm n p, valid_alloc al p = true ->
+  obs_of (run_prog (Imem al) pm n p) = obs_of (run_prog Smem pm n p).
+Proof. exact Proofs.allocation_invisible_pm. Qed.
+
+(* 2. non-vacuity: "everything in the stash" is always valid ... *)
+Theorem alloc_all_stash_valid : forall p, valid_alloc alloc_all_stash p = true.
+Proof. exact Proofs.alloc_all_stash_valid. Qed.
+
+(* ... and on a program with a loop variable captured per iteration the minimal allocation is valid and
+   mixes stash and frame; "everything in a frame" is invalid there and really misbehaves *)
+Theorem alloc_minimal_valid_example :
+  valid_alloc (alloc_minimal p_example) p_example = true /\
+  alloc_minimal p_example 2%N = true /\ alloc_minimal p_example 1%N = false /\
+  run_env 50 p_example = ([ONum 1%Z true], ONormal (Some OUndef)) /\
+  valid_alloc (fun _ => false) p_example = false /\
+  snd (run_slots (fun _ => false) 50 p_example) = OBadSlot.
+Proof. exact Proofs.example_minimal_valid. Qed.
+
+(* 3. expression vs statement position: the result-unused variant of ++/-- that keeps ToNumber has the
+      same effects and exceptions as the value-position one (any memory model) ... *)
+Theorem position_invisible_incdec_partial : forall MM n c rho pre inc x s,
+  let r1 := eval MM PUnused (S n) c rho true (EIncDec pre inc x) s in
+  let r2 := eval MM PUnused (S n) c rho false (EIncDec pre inc x) s in
+  snd r1 = snd r2 /\
+  match fst r1, fst r2 with inl _, inl _ => True | inr e1, inr e2 => e1 = e2 | _, _ => False end.
+Proof. exact Proofs.position_invisible_incdec. Qed.
+
+(* ... whereas goja's transcription (ToNumber dropped, vm.go _inc/_dec on a non-int) is observably
+   different: finding F7 *)
+Theorem incdec_unused_refuted : exists p n, run_env_pm PGoja n p <> run_env n p.
+Proof. exact Proofs.incdec_unused_refuted. Qed.
+
+(* 4. goja's order of checks for a store to a const binding in its TDZ: TypeError instead of ReferenceError *)
+Theorem const_tdz_assign_refuted : exists p n, run_env_pm PGojaC n p <> run_env n p.
+Proof. exact Proofs.const_tdz_assign_refuted. Qed.
+
+(* 5. constant folding of && with a constant falsy left operand leaves a value on the operand stack
+      when the result is unused (finding F18); the || sibling is balanced *)
+Theorem constfold_goja_refuted : exists putOnStack left_truthy,
+  goja_and_const_left putOnStack left_truthy <> want putOnStack.
+Proof. exact Proofs.constfold_goja_refuted. Qed.
+
+Theorem goja_or_const_left_balanced : forall putOnStack left_truthy,
+  goja_or_const_left putOnStack left_truthy = want putOnStack.
+Proof. exact Proofs.goja_or_const_left_balanced. Qed.
+
+Print Assumptions allocation_invisible.
+Print Assumptions allocation_invisible_pm.
+Print Assumptions alloc_all_stash_valid.
+Print Assumptions alloc_minimal_valid_example.
+Print Assumptions position_invisible_incdec_partial.
+Print Assumptions incdec_unused_refuted.
+Print Assumptions const_tdz_assign_refuted.
+Print Assumptions constfold_goja_refuted.
+Print Assumptions goja_or_const_left_balanced.
